@@ -70,6 +70,49 @@ theorem C03_verification_adds_one_callback (s : Sess) (m : InMsg) :
     (verifySelect s m false false true).1 = s ∨ ∃ o, (verifySelect s m false false true).1 = s.emit o :=
   verifySelect_emit s m false false true
 
+/-- **One ResendRequest event.**  In session, connected, nothing queued, the request passes verification: the
+    observations of the event are the FromAdmin callback, the plan written in order, the request's own number consumed
+    if it is the expected one, and the peer timer re-armed. -/
+theorem C03_resend_request_event (s : Sess) (m : InMsg) (b e : Int)
+    (hst : s.st = .inSession) (hout : s.out = true) (hq : s.toSend = [])
+    (hk : kindOf m = "2") (hb : getInt m 7 = .val b) (he : getInt m 16 = .val e)
+    (hv : verifySelect s.clearLog m false false true = (s.clearLog.emit (.fromAdmin "2" (seqText m)), none)) :
+    (step s (.incomingMsg (some m))).2.1 =
+      [Obs.fromAdmin "2" (seqText m)]
+      ++ (replyPlan s.cfg.persist s.store b (clipEnd s.cfg s.store.sender e)).map Obs.wire
+      ++ (if (checkTooLow s m).isSome || (checkTooHigh s m).isSome then [] else [Obs.incT])
+      ++ [Obs.armPeer (1200 * s.hb)] := by
+  unfold step stepCore
+  simp only []
+  have hf : fuelOf s.clearLog = (4 * s.inbox.length + 6) + 1 + 1 := by unfold fuelOf; rfl
+  rw [hf]
+  unfold incoming
+  simp only []
+  rw [checkSessionTime_inrange _ _ (by show s.st.sessionTime = true; rw [hst]; rfl)]
+  have hc : s.clearLog.st.connected = true := by show s.st.connected = true; rw [hst]; rfl
+  simp only [hc, Bool.not_true, Bool.false_eq_true, if_false]
+  have hfix : fixMsgInCore s.clearLog m = handleResendRequest s.clearLog m := by
+    unfold fixMsgInCore
+    have : s.clearLog.st = .inSession := hst
+    rw [this]
+    simp only []
+    unfold inSessionFixMsgIn
+    simp [hk]
+  rw [hfix, C03_handleResendRequest s.clearLog _ m b e hv hb he]
+  simp only []
+  generalize hx : s.clearLog.emit (.fromAdmin "2" (seqText m)) = x
+  have hxo : x.out = true := by rw [← hx]; exact hout
+  have hxq : x.toSend = [] := by rw [← hx]; exact hq
+  rw [resendMessages_shape x b _ hxo hxq]
+  have hxc : x.cfg = s.cfg := by rw [← hx]; rfl
+  have hxs : x.store = s.store := by rw [← hx]; rfl
+  have hxl : x.log = [.fromAdmin "2" (seqText m)] := by rw [← hx]; rfl
+  have hxh : x.hb = s.hb := by rw [← hx]; rfl
+  rw [checkTooLow_store s _ m (by show x.store.target = _; rw [hxs]), checkTooHigh_store s _ m (by show x.store.target = _; rw [hxs])]
+  rw [hxc, hxs]
+  cases h1 : (checkTooLow s m).isSome <;> cases h2 : (checkTooHigh s m).isSome <;>
+    simp [setState_connected _ _ SState.inSession rfl, Sess.setSt, Sess.emit, incrTarget, Sess.setTarget, hxl, hxh]
+
 /-! ## 3. clipping: "to the end" and beyond-the-end ranges stop at the last number used -/
 
 /-- EndSeqNo is replaced by the last number used exactly when it is the infinity marker of the BeginString
@@ -272,6 +315,15 @@ private def demoStore : Store :=
 -- the model, on a session in session with a connection and that store, writes exactly the plan
 #guard ((resendMessages { cfg := {}, st := .inSession, store := demoStore, out := true } 1 7).log.reverse)
         == (replyPlan true demoStore 1 7).map Obs.wire
+-- one whole event (`C03_resend_request_event`): its hypotheses hold of a concrete session and request, and the event's
+-- observations are the callback, the plan, the consumed number, the re-armed timer
+private def rr : InMsg :=
+  { f := [(8, "FIX.4.2"), (35, "2"), (49, "TGT"), (56, "SND"), (34, "5"), (52, "@0"), (7, "1"), (16, "0")] }
+private def demoSess : Sess := { cfg := {}, st := .inSession, store := { demoStore with target := 5 }, out := true, hb := 30 }
+#guard (verifySelect demoSess.clearLog rr false false true).2.isNone
+        && (verifySelect demoSess.clearLog rr false false true).1.log == [.fromAdmin "2" "5"]
+#guard (step demoSess (.incomingMsg (some rr))).2.1
+        == [.fromAdmin "2" "5"] ++ (replyPlan true demoStore 1 7).map Obs.wire ++ [.incT, .armPeer 36000]
 /-- the hypotheses of `C03_cover` are satisfiable -/
 example : demoStore.HoldsAll 1 7 := by
   intro n h1 h2
@@ -298,7 +350,8 @@ Clause checklist (properties.jsonl C03 → theorems)
 * admin / declined messages replaced by gap fills                : C03_replayed_exactly, C03_gapfill_only_admin_or_declined
 * gap fill's NewSeqNo is the next number replayed                : C03_elements_wellformed (36 = hi) + `Chain` (next element's lo = hi)
 * the model really sends the plan                                : C03_loop_follows_plan, C03_reply_is_plan, C03_reply_wires(_exact),
-                                                                   C03_reply_nothing, C03_handleResendRequest
+                                                                   C03_reply_nothing, C03_handleResendRequest, C03_resend_request_event
+                                                                   (one whole event: callback, plan, number consumed, timer)
 * both persistence modes                                         : C03_no_persistence, C03_empty_range
 * quantifier "every history of previously sent messages"         : every `st : Store` in §5; reachable stores satisfy the hypotheses: C03_stored_all
 * every pattern of application refusals                          : `replayable` reads 9003 of each stored message
